@@ -562,6 +562,9 @@ class OptionsParser:
 
                 cast(List[str], values).append(value)
         else:
+            if option in self._handlers:
+                raise ValueError(f'Missing value for option {option}')
+
             self.options[option] = True
 
     def _parse_options(self, line: str) -> str:
